@@ -115,6 +115,15 @@ Theorem C03_comp_xid_never_reused : forall x0 h1 r1 h2 r2 xa xb,
 Proof. exact xid_unique. Qed.
 Print Assumptions C03_comp_xid_never_reused.
 
+(* the same for a fire-and-forget send_opack (an event sent to the device): the id it carries - the
+   value of the counter at that moment - is never given to a later exchange, so a Response frame
+   the device sends back for that event can (by deliver_matches) never reach a caller. *)
+Theorem C03_comp_event_xid_never_reused : forall x0 h1 h2 r xb,
+  c_key_at (final cstep (c_init x0) (h1 ++ CSend :: h2)) r = Some (CX xb) ->
+  (c_next (final cstep (c_init x0) h1) < xb)%N.
+Proof. exact send_xid_not_reused. Qed.
+Print Assumptions C03_comp_event_xid_never_reused.
+
 Theorem C03_comp_outcome_once : forall x0 h w, NoDup (c_req_waiters h) ->
   length (filter (c_mentionsb w) (outs cstep (c_init x0) h)) <= 1.
 Proof. intros x0 h w F. exact (comp_outcome_once x0 h w F). Qed.
